@@ -256,24 +256,27 @@ fn gen_history(r: &mut Rng, fmt_name: &str, slots: usize, nops: usize) -> Vec<Va
                 }
             },
             14 | 15 => {
-                // split into two views (adjacent, gapped or overlapping) and rejoin them
+                // split into two views of one buffer and rejoin them: the receiver starts at offset o1 (zero or not), the pushed
+                // view starts right behind it (the zero-copy merge), at the receiver's *length*, one byte off, or overlapping
                 let free: Vec<usize> = (0..slots).filter(|k| !live[*k]).collect();
-                if free.len() >= 2 && len[i] >= 20 && fmt_name != "utf8" {
-                    let (a, b) = (free[0], free[1]);
-                    let l1 = 9 + r.below(len[i] / 2 - 8);
-                    let gap = *r.pick(&[0usize, 0, 1, 2]);
-                    let back = if r.chance(1, 4) { 1 + r.below(3) } else { 0 };
-                    let o2 = l1 + gap - back.min(l1);
-                    if o2 < len[i] {
-                        let l2 = len[i] - o2;
-                        ops.push(e("sub", i, a, 0, l1, &[]));
-                        ops.push(e("sub", i, b, o2, l2, &[]));
-                        ops.push(e("push_tendril", a, b, 0, 0, &[]));
-                        live[a] = true;
-                        len[a] = l1 + l2;
-                        live[b] = true;
-                        len[b] = l2;
+                if free.len() >= 2 && fmt_name != "utf8" && fmt_name != "wtf8" {
+                    if len[i] < 48 {
+                        let fill: Vec<u8> = if fmt_name == "bytes" || fmt_name == "latin1" { (10..58).collect() } else { (0..48).map(|k| b'a' + (k % 26) as u8).collect() };
+                        ops.push(e("push", i, 0, 0, 0, &fill));
+                        len[i] += fill.len();
                     }
+                    let (a, b) = (free[0], free[1]);
+                    let o1 = *r.pick(&[0usize, 0, 1, 3, 9, 10]);
+                    let l1 = 9 + r.below(8);
+                    let o2 = *r.pick(&[o1 + l1, o1 + l1, l1, o1 + l1 + 1, o1 + l1 - 1, l1 + 1, o1 + l1 + 2]);
+                    let l2 = 9 + r.below(len[i] - o2 - 9 + 1);
+                    ops.push(e("sub", i, a, o1, l1, &[]));
+                    ops.push(e("sub", i, b, o2, l2, &[]));
+                    ops.push(e("push_tendril", a, b, 0, 0, &[]));
+                    live[a] = true;
+                    len[a] = l1 + l2;
+                    live[b] = true;
+                    len[b] = l2;
                 }
             },
             0 | 1 | 2 => {
